@@ -539,6 +539,17 @@ def run(tier):
         ok = "reserve" in names and any("TempVec" in (mir.callee_res(t) or "") and (mir.callee_res(t) or "").endswith("::from") for _, t in body.calls())
         rs = [(bi, t) for bi, t in body.calls() if (mir.callee_res(t) or "").startswith("std::vec::Vec::<T, A>::reserve")]
         ok = ok and len(rs) == 1 and mir.deepstrip(body.origin_operand(rs[0][1]["args"][1])) == ("arg", 2)
+        # ... on every path: a path that bypasses the TempVec round trip must leave the vector's fields alone (a buffer installed by
+        # hand orphans the one the vector already owns, whatever its length)
+        tf = [bi for bi, t in body.calls() if "TempVec" in (mir.callee_res(t) or "") and (mir.callee_res(t) or "").endswith("::from")]
+        always = len(tf) == 1 and body.on_all_paths_to_return(tf[0]) and len(rs) == 1 and body.on_all_paths_to_return(rs[0][0])
+        if ok and not always:
+            direct = []
+            for i in sorted(body.live_blocks()):
+                for st_ in body.blocks[i]["s"]:
+                    if st_["k"] == "assign" and st_["p"]["p"] and mir.deepstrip(body.origin_local(st_["p"]["l"])) == ("arg", 1):
+                        direct.append(i)
+            ok = not direct
         ck.ob("R-reserve-fn-rematerialises-and-writes-back", "cglue/cglue_reserve_vec", ok, "cglue_reserve_vec must rebuild the Vec through TempVec (which writes the new raw parts back) and reserve the requested amount")
     # Deref / DerefMut / Clone / Default
     for name, prim in (("<cglue::vec::CVec<T> as std::ops::Deref>::deref", "from_raw_parts"), ("<cglue::vec::CVec<T> as std::ops::DerefMut>::deref_mut", "from_raw_parts_mut")):
